@@ -668,6 +668,57 @@ func refPoolPut(r *engine.Run, rule string) {
 					bad = r.P.Pos(d2.Pos())
 				}
 			})
+			// memory of the pooled object must not leave the function: with a deferred Put
+			// the object is back in the pool the moment the caller gets the result
+			derived := map[ssa.Value]bool{}
+			for changed := true; changed; {
+				changed = false
+				engine.Instrs(f, func(in2 ssa.Instruction) {
+					switch x := in2.(type) {
+					case *ssa.UnOp:
+						if x.Op == token.MUL && alias[x.X] && !derived[x] {
+							derived[x], changed = true, true
+						}
+					case *ssa.Slice:
+						if derived[x.X] && !derived[x] {
+							derived[x], changed = true, true
+						}
+					case *ssa.Call:
+						if derived[x] {
+							return
+						}
+						for _, a := range x.Call.Args {
+							if derived[a] {
+								derived[x], changed = true, true
+							}
+						}
+					case *ssa.Extract:
+						if derived[x.Tuple] && !derived[x] {
+							if _, isSl := x.Type().Underlying().(*types.Slice); isSl {
+								derived[x], changed = true, true
+							}
+						}
+					case *ssa.Store:
+						if alias[x.Addr] && !derived[x.Val] {
+							derived[x.Val], changed = true, true
+						}
+					}
+				})
+			}
+			escapes := ""
+			for _, ret := range engine.Returns(f) {
+				for i := range ret.Results {
+					v := resultValue(ret, i)
+					if v == nil {
+						continue
+					}
+					if _, isSl := v.Type().Underlying().(*types.Slice); isSl && derived[v] {
+						escapes = r.P.Pos(ret.Pos())
+					}
+				}
+			}
+			r.Check(escapes == "", rule, o.next(fn(f)+"|pooled memory returned"), r.P.Pos(d.Pos()), "no slice of the pooled object's memory is returned",
+				"the function returns ("+escapes+") a slice of the memory of an object that its deferred Put hands back to the sync.Pool at the same moment: the caller still reads the bytes (hands them to the store) while the next Get overwrites them - the record of one round is stored with the contents of another")
 			r.Check(bad == "", rule, o.next(fn(f)+"|deferred Put"), r.P.Pos(d.Pos()), "no defer registered before the deferred Put touches the pooled object",
 				"a deferred call registered earlier ("+bad+") runs AFTER the deferred Put (defers run last in, first out) and touches the object that is already back in its sync.Pool: another goroutine may have taken it in between, and its written input is wiped - concurrent hashing returns wrong digests")
 		})
